@@ -17,6 +17,12 @@ c14.e2n <mode> <wkind> <mesh> <list rat> <list column>
 c14.e2n1 <mode> <mesh> <list column>           the same with order1_only=True, weight=False (also reached through an explicit
    -> ok <list (node id <list (1 value)>)>     incidence= calculate_incidence_matrix(order1_only=True)): rows = first-order nodes
       | ok unsupported                          a second-order type other than tet2 / hex2
+c14.hist <mesh> <list call>                    a history of single-column conversions that all receive the SAME incidence object
+   call = <mode> <wkind> <list rat> <column>   (`e2nHistory`); wkind / weights as for c14.e2n
+   -> ok <list (list rat)>                     what every call returned (one value per node, storage order)
+         <pairs>                               the stored entries (row, col) of the incidence object AFTER the history
+         <list (<list rat> <list rat>)>        per call: its weights object and its data object after the call
+      | ok nometric
 ``` -/
 namespace Femio.C14
 open Femio.Proto Core
@@ -80,6 +86,35 @@ def handle : List String → Option String
     if mode = "mean" ∨ mode = "effective" then
       some ("ok " ++ showList (fun (nid, vs) => toString nid ++ " " ++ showList showCell vs) out)
     else some "err bad-op"
+  | "c14.hist" :: rest => do
+    let (m, calls) ← run (do
+      let m ← meshP
+      let calls ← listOf (do let mode ← tok; let wk ← nat; let ws ← listOf rat; let col ← listOf rat; pure (mode, wk, ws, col))
+      pure (m, calls)) rest
+    let flat := flatten m.elemBlocks
+    let ids := m.nodeIds
+    let n := ids.length
+    let e := flat.length
+    let pairs := incidence ids m.elemBlocks
+    let rows : Array (List Nat) := pairs.foldl (fun a (i, j) => if i < a.size then a.modify i (j :: ·) else a) (Array.replicate n [])
+    -- the incidence object: its stored entries together with row-wise adjacency lists (read by `rel`; `rel o i j` is `incOfPairs o.2 i j`)
+    let rel : Array (List Nat) × List (Nat × Nat) → Nat → Nat → Bool := fun o i j => (o.1.getD i []).contains j
+    if calls.any (fun c => c.1 ≠ "mean" ∧ c.1 ≠ "effective") then some "err bad-op" else
+    let implicit : Option (List Rat) := flat.mapM fun el =>
+      ((Femio.C11.gather m.nodes el.conn).bind (Femio.C11.volume (Femio.C11.typeName el.ty) .centroid)).map (·.val)
+    let cs : Option (List (ConvCall Rat)) := calls.mapM fun (mode, wk, ws, col) =>
+      let md := if mode = "mean" then ConvMode.mean else ConvMode.effective
+      match wk with
+      | 0 => some ⟨md, List.replicate e 1, col⟩
+      | 1 => if ws.length = e then some ⟨md, ws, col⟩ else none
+      | _ => implicit.map fun wl => ⟨md, wl, col⟩
+    match cs with
+    | none => some (if calls.any (fun c => c.2.1 = 2) ∧ implicit.isNone then "ok nometric" else "err bad-op")
+    | some cs =>
+      let h := e2nHistory rel n e cs (rows, pairs)
+      some ("ok " ++ showList (fun (out : List Rat × ConvArgs _ Rat) => showList showRat out.1) h.1 ++ " "
+        ++ showPairs h.2.2 ++ " "
+        ++ showList (fun (out : List Rat × ConvArgs _ Rat) => showList showRat out.2.weights ++ " " ++ showList showRat out.2.data) h.1)
   | _ => none
 
 end Femio.C14
